@@ -7,6 +7,7 @@ C07 development).
 import Rpft.Props.C07
 import Rpft.Lemmas.RowFlow
 import Rpft.Lemmas.RowShort
+import Rpft.Lemmas.RowMixed
 set_option linter.unusedSimpArgs false
 set_option linter.unusedVariables false
 namespace Rpft.Props.C09
@@ -300,7 +301,11 @@ theorem short_row_needs_flat_star_cells :
 /-! ### positional vs keyword records -/
 
 /-- general statement: every positional / keyword / mixed encoding of a record (of any
-field types, at any nesting) decodes to the same value when no kwarg ambiguity arises -/
+field types, at any nesting) decodes to the same value when no kwarg ambiguity arises.
+Proved below: records of basic-typed fields — all-positional (`positional_eq_keyword_partial`)
+and mixed positional / keyword entries in any order (`mixed_eq_keyword`).  Not proved:
+entries that are themselves structured (a sub-record or a list given positionally inside a
+record cell `v1|x;y`, a list of records in one cell `a;b|c;d`). -/
 def positional_eq_keyword_full : Prop :=
   ∀ (ty : Ty) (v : Val) (pos kw : Cell.Nested) (tp tk : Str),
     reprOk false ty v = true → toNested ty v = .ok kw →
@@ -351,6 +356,61 @@ theorem positional_eq_keyword_partial {sfs : List Field} {skvs : List (Str × Va
     simp only [List.nil_append, Option.getD_some]
     exact validate_sub D
 
+/-- the key/value cell written by `unparse` for a record of basic fields decodes to the record -/
+theorem keyword_cell_reads {sfs : List Field} {skvs : List (Str × Val)}
+    (hfam : subFamily sfs = true)
+    (hr : reprOk false (plainTop sfs) (.model skvs) = true)
+    (hfo : fieldOk false (plainTop sfs) (.model skvs) = true) :
+    readCell (plainTop sfs)
+      (Cell.joinCell (.list (((sfs.zip (skvs.map Prod.snd)).filter nonDefault).map subElem))) =
+        .ok (.model skvs) := by
+  obtain ⟨D⟩ := subData_of_repr hfam hr hfo
+  rw [← D.hpairs]
+  have hokf := subOk_filter D.hok
+  have hndall : ∀ p ∈ D.pairs.filter nonDefault, nonDefault p = true :=
+    fun p hp => (List.mem_filter.mp hp).2
+  obtain ⟨hwf, hcok⟩ := wfCell_pairs D.hne hokf hndall
+    (fun p hp => D.hfok p (List.mem_filter.mp hp).1 (hndall p hp))
+  unfold readCell
+  rw [cellParse_joinCell hwf hcok]
+  have hpv : PV.ofCell (.list ((D.pairs.filter nonDefault).map subElem)) =
+      .list ((D.pairs.filter nonDefault).map subEntry) := by
+    simp [PV.ofCell, List.map_map, PV.ofElem, subElem, subEntry, Function.comp]
+  simp only [hpv, assignValue, assignModel, tryKwarg_pairs_none]
+  rw [assignEntries_kw sfs skvs _ _ [] hokf hndall (fun p _ => rfl)]
+  simp only [List.nil_append, Option.getD_some]
+  exact validate_sub D
+
+/-- **Mixed positional / keyword = keyword** for records of basic-typed fields: a cell whose
+`i`-th entry is either the plain value of the `i`-th field (`MEntry.pos`; the index counts the
+keyword entries too, as `enumerate` does) or a `name;value` pair for ANY field (`MEntry.kw`),
+every field given at most once and the fields not given at their defaults, decodes to the
+same record as the key/value cell written by `unparse` — namely to the record itself —
+whenever the whole-cell keyword rule does not fire (`UnambiguousM`).  All-positional and
+all-keyword cells are the special cases. -/
+theorem mixed_eq_keyword {sfs : List Field} {skvs : List (Str × Val)}
+    (hfam : subFamily sfs = true)
+    (hr : reprOk false (plainTop sfs) (.model skvs) = true)
+    (hfo : fieldOk false (plainTop sfs) (.model skvs) = true)
+    (es : List MEntry) (hne : es ≠ [])
+    (hmem : ∀ e ∈ es, e.pair ∈ sfs.zip (skvs.map Prod.snd))
+    (hat : PosAt sfs 0 es) (hndE : (es.map (·.pair.1.1)).Nodup)
+    (hok : ∀ e ∈ es, reprOk false e.pair.1.2.1 e.pair.2 = true)
+    (hkwnb : ∀ p, MEntry.kw p ∈ es → printBasic p.2 ≠ [])
+    (hlast : ∀ p, es.getLast? = some (.pos p) → printBasic p.2 ≠ [])
+    (hrest : ∀ p ∈ sfs.zip (skvs.map Prod.snd), (∃ e ∈ es, e.pair = p) ∨ p.1.2.2 = some p.2)
+    (hun : UnambiguousM sfs es = true) :
+    readCell (plainTop sfs) (Cell.joinCell (.list (es.map (·.elem)))) =
+      readCell (plainTop sfs)
+        (Cell.joinCell (.list (((sfs.zip (skvs.map Prod.snd)).filter nonDefault).map subElem))) ∧
+    readCell (plainTop sfs) (Cell.joinCell (.list (es.map (·.elem)))) = .ok (.model skvs) := by
+  have hnames : skvs.map Prod.fst = sfs.map (·.1) := by
+    simp only [reprOk, Bool.and_eq_true, decide_eq_true_eq] at hr
+    exact hr.1.1
+  have h1 := readCell_mixed es hnames hfam hne hmem hat hndE hok hkwnb hlast hrest
+    (tryKwarg_of_unambiguousM sfs es hun)
+  exact ⟨by rw [h1, keyword_cell_reads hfam hr hfo], h1⟩
+
 def kwSub : List Field :=
   [("word".toList, .str, some (.str [])), ("number".toList, .int, some (.int 0))]
 
@@ -379,6 +439,25 @@ example :
     readsAs (plainTop kwSub) "x\\|y|5".toList
       (.model [("word".toList, .str "x|y".toList), ("number".toList, .int 5)]) = true ∧
     Unambiguous kwSub ["x|y".toList, "5".toList] = true := by decide +kernel
+
+/-- non-vacuity of `mixed_eq_keyword`: `Sub(word="x|y", number=5)` as `x\|y|number;5`
+(positional then keyword); `Sub4(q=7, z="end")` as `z;end|7` (keyword first, then the value
+of the field at index 1) -/
+example :
+    readsAs (plainTop kwSub) "x\\|y|number;5".toList
+      (.model [("word".toList, .str "x|y".toList), ("number".toList, .int 5)]) = true ∧
+    readsAs (plainTop exSub) "z;end|7".toList
+      (.model [("p".toList, .str []), ("q".toList, .int 7), ("w".toList, .bool false),
+        ("z".toList, .str "end".toList)]) = true := by decide +kernel
+
+/-- `UnambiguousM` is needed: `number|number;5` (positional `word="number"`, keyword
+`number=5`) is taken as the ONE keyword argument `number=[number,5]` -/
+theorem mixed_needs_UnambiguousM :
+    UnambiguousM kwSub [.pos (("word".toList, .str, some (.str [])), .str "number".toList),
+      .kw (("number".toList, .int, some (.int 0)), .int 5)] = false ∧
+    readsAs (plainTop kwSub) "number|number;5".toList
+      (.model [("word".toList, .str "number".toList), ("number".toList, .int 5)]) = false := by
+  decide +kernel
 
 /-! ### column order -/
 
